@@ -58,7 +58,7 @@ pub fn bases(l: &mut Local) -> Vec<Base> {
     out
 }
 
-fn expectation(cfg: &Cfg, with: bool) -> (Option<&'static str>, Option<&'static str>) {
+pub fn expectation(cfg: &Cfg, with: bool) -> (Option<&'static str>, Option<&'static str>) {
     if cfg.hk != Hk::None && with {
         (Some(pipeline::AUD), Some(pipeline::NONCE))
     } else {
@@ -136,7 +136,7 @@ fn char_level(b: &Base, l: &mut Local) {
 }
 
 /// every member / digest / array element of the decoded payload changed, removed or duplicated
-fn payload_edits(p: &Value) -> Vec<(String, Value)> {
+pub fn payload_edits(p: &Value) -> Vec<(String, Value)> {
     let mut out = vec![];
     fn paths(v: &Value, cur: &mut Vec<String>, out: &mut Vec<Vec<String>>) {
         match v {
